@@ -49,6 +49,26 @@ def cycle(n):
     return A
 
 
+def grid_graph(r, c):
+    n = r * c
+    A = [[0] * n for _ in range(n)]
+    for i in range(r):
+        for j in range(c):
+            v = i * c + j
+            if j + 1 < c:
+                A[v][v + 1] = 1
+            if i + 1 < r:
+                A[v][v + c] = 1
+    return A
+
+
+def binary_tree(n):
+    A = [[0] * n for _ in range(n)]
+    for v in range(1, n):
+        A[(v - 1) // 2][v] = 1
+    return A
+
+
 def star(n):
     A = [[0] * n for _ in range(n)]
     for i in range(1, n):
@@ -183,7 +203,16 @@ def thunks():
             out.append(persim.gromov_hausdorff(P["CY6"], P["CY8"]))
         return out
 
+    def mgh_larger(P):
+        out = []
+        for sd in (0, 1, 2):
+            for a, b in (("GR34", "TR15"), ("CY14", "GR35")):
+                np.random.seed(sd)
+                out.append(persim.gromov_hausdorff(P[a], P[b]))
+        return out
+
     reg("gromov_hausdorff_draw_sensitive", mgh_sensitive, ["CY6", "ST5", "CY8"], forms=("list", "int"))
+    reg("gromov_hausdorff_larger_graphs", mgh_larger, ["GR34", "TR15", "CY14", "GR35"], forms=("list", "int"))
     reg("gromov_hausdorff_pair", mgh_pair, ["G1", "G2"], forms=("list", "int"))
     reg("gromov_hausdorff_collection", mgh_coll, ["G1", "G2", "G3"], forms=("list", "int"))
     reg("gromov_hausdorff_order", mgh_order, ["G1", "G2", "order"], forms=("list", "int"))
@@ -493,6 +522,7 @@ def make_pool(f, variant=0):
         "IL": form(DIL, dform if dform in ("list", "f32") else "f64"),
         "G1": form(G1, gf), "G2": form(G2, gf), "G3": form(G3, gf),
         "CY6": form(cycle(6), gf), "CY8": form(cycle(8), gf), "ST5": form(star(5), gf),
+        "GR34": form(grid_graph(3, 4), gf), "GR35": form(grid_graph(3, 5), gf), "TR15": form(binary_tree(15), gf), "CY14": form(cycle(14), gf),
         "order": np.array([1.0, 1.0]), "order0": np.array([0.0, 2.0]), "coeffs": [2.0, -1.0], "labels": ["first", "second"], "labels1": ["only"], "ax_color": np.array([0.1, 0.2, 0.3]),
         "VALS": form([[0, 1, 2, 1, 0], [0, 0, 1, 0, 0]], "f64" if f == "list" else f),
         "CP": [[[0.0, 0.0], [1.0, 1.0], [2.5, -0.5], [4.0, 0.0]], [[1.0, 0.0], [2.0, 1.0], [3.0, 0.0]]],
@@ -582,6 +612,31 @@ def order_differential(ctx):
 
             raise HarnessError("order-differential helper failed: %s" % p.stderr[-800:])
         results[label] = json.loads(line[0][6:])
+    # the same forward order in fresh interpreters under OTHER hash seeds (string / bytes hashing salted
+    # differently): every result except WHICH optimal bottleneck matching is returned must be the same
+    for hs in (101, 2024):
+        p = subprocess.run([sys.executable, "-B", "-c", code, json.dumps(names)], capture_output=True, text=True, cwd=__import__("mc.env").env.VERIF,
+                           env=dict(__import__("os").environ, PYTHONHASHSEED=str(hs)))
+        ctx.trans(len(names))
+        line = [l for l in p.stdout.splitlines() if l.startswith("RESULT")]
+        if p.returncode != 0 or not line:
+            from mc.ctx import HarnessError
+
+            raise HarnessError("hash-seed differential helper failed: %s" % p.stderr[-800:])
+        other = json.loads(line[0][6:])
+        for name in names:
+            ctx.valid()
+            ctx.state(("hashseed", hs, name))
+            a_, b_ = other[name], results["forward"][name]
+            if "bottleneck" in name and name not in ("bottleneck", "bottleneck_other_shape"):
+                # any optimal matching may be returned: compare the distance only
+                a_ = a_[0] if isinstance(a_, list) and a_ else a_
+                b_ = b_[0] if isinstance(b_, list) and b_ else b_
+                if "plot" in name:
+                    continue
+            if json.dumps(a_, sort_keys=True) != json.dumps(b_, sort_keys=True):
+                ctx.violation("hash-seed-dependent", "%s gives another result in an interpreter with PYTHONHASHSEED=%d (same NumPy seeds, same call order)" % (name, hs),
+                              observed=a_, expected=b_, extra={"thunk": name, "PYTHONHASHSEED": hs})
     base = results["forward"]
     for label in ("reverse", "interleaved"):
         for name in names:
